@@ -122,6 +122,13 @@ def search(ctx, binp, n):
         base = r["kind"].split("+")[0]
         kinds[base] = kinds.get(base, 0) + 1
         inp = {"src": r["src"], "cancel_ms": r["cancel_ms"], "stdin": r.get("stdin", "")}
+        if r.get("pre"):
+            inp["pre_on_same_runner"] = r["pre"]
+        bound_us_case = bound_us
+        if r.get("exec_kill_ms") is not None:
+            # a real external child (sleep) run by interp.DefaultExecHandler(t): bound = max(t, 0) + margin
+            inp["exec_kill_ms"] = r["exec_kill_ms"]
+            bound_us_case = int((max(r["exec_kill_ms"], 0) / 1000.0 + MARGIN_S) * 1e6)
         if g.get("parse_err"):
             ctx.broken.append(("harness-run", "generated program does not parse: %s" % r["src"]))
             continue
@@ -133,12 +140,16 @@ def search(ctx, binp, n):
             klass = r.get("class") or None
             if base == "mapfile_blocked":
                 klass = "mapfile_blocked_read_not_cancel_aware"
-            ctx.fail("run_returns_after_cancel", inp, klass, {"watchdog": "no return 6.5 s after the cancellation"})
+            if base == "exec_sleep_ignores_int_in_subst" and r.get("exec_kill_ms") is not None and r["exec_kill_ms"] <= 0:
+                # kill timeout <= 0 (no WaitDelay) + stdout that is not a file (command substitution) + a grandchild
+                # that survives the killed child and keeps the pipe open
+                klass = "exec_no_wait_delay_grandchild_holds_output_pipe"
+            ctx.fail("run_returns_after_cancel", inp, klass, {"watchdog": "no return 6.5 s (+ kill timeout) after the cancellation"})
             continue
         if not g.get("cancelled"):
             continue            # the program ended before the cancellation
         worst = max(worst, g["latency_us"])
-        if g["latency_us"] > bound_us:
+        if g["latency_us"] > bound_us_case:
             ctx.fail("latency_within_kill_timeout_plus_margin", inp, None, {"latency_us": g["latency_us"]})
         if g.get("status", 0) == 0 and not g.get("err"):
             # narrow class, decided on the syntax tree by the harness (blockedLast): the last command of the
@@ -166,13 +177,16 @@ def run(ctx):
     if not binp:
         return
     quick = ctx.tier == "quick"
-    ctx.rule = ("search: 34 base programs (infinite while/until/for loops, nested loops and functions, subshell, command "
+    ctx.rule = ("search: every base also on a Runner REUSED after a first Run with another, still alive, context (no Reset) "
+                "when it loops/blocks inside $(..)/<(..)/>(..) (+ a rotating third of the others); 5 programs blocked in a real "
+                "external child (sleep, also ignoring SIGINT) under interp.DefaultExecHandler(t), t in -1,0,150,2000 ms, bound "
+                "max(t,0)+2 s; 34 base programs (infinite while/until/for loops, nested loops and functions, subshell, command "
                 "substitution, EXIT trap, read/select/mapfile on a pipe that never delivers, background loops + wait, "
                 "pipelines of loops, process substitutions read / never read) each once, then random ones wrapped in 0..2 "
                 "extra constructs, x cancellation after 0,1,3,10,30,100,250 ms; code leg: core programs repeated 4 times, "
                 "cancelled at byte 1..60 of stdout; non-trivial = distinct (program, cancellation)")
     code_leg(ctx, binp, 150 if quick else 1500)
-    search(ctx, binp, 70 if quick else 600)
+    search(ctx, binp, 90 if quick else 600)
     ctx.assumptions += ["real time is measured, not modelled: bound = default exec kill timeout (2 s, read from interp/api.go) + 2 s",
                         "a case slower than 1.5 s is re-run alone before it counts (load)",
                         "cancellation in the model happens at stop() calls; the harness cancels inside a Write of stdout, "
@@ -193,7 +207,9 @@ META = {
              "or waits for returning threads, refuted by the faithful annotation for a never-opened process-substitution FIFO "
              "followed by wait. Tied to the code by running core programs with deterministic cancellation against the model in "
              "the kernel; search measures cancel-to-return latency of generated looping/blocking programs under a watchdog."),
-    "note": ("Partial: real time and the OS are outside the model; the total unwinding cost over the whole stack is not a single "
+    "note": ("External children: only the fixed template `sleep 30` (optionally under /bin/sh with SIGINT ignored) is ever "
+             "started, in the worker's own process group which is killed afterwards; generated programs never reach an external "
+             "command. Partial: real time and the OS are outside the model; the total unwinding cost over the whole stack is not a single "
              "closed formula. Known findings: process substitution never opened + wait, mapfile blocked on stdin, Run returning "
              "nil when cancelled inside its last blocking builtin."),
     "design_ref": "DESIGN.md 4 C31",
